@@ -592,6 +592,8 @@ pub struct SdList {
     pub entries: Vec<Option<usize>>,
     /// per entry: rank of the hidden member's NAME among the object's member names (byte order)
     pub name_ranks: Vec<Option<usize>>,
+    /// the object also has members that stay visible (partly hidden objects arise under Custom)
+    pub has_visible: bool,
 }
 
 #[derive(Default, Debug)]
@@ -788,6 +790,7 @@ fn walk(
                     l.sd_lists.push(SdList {
                         at: path_str(p),
                         in_disclosure: l.disc_depth > 0,
+                        has_visible: names.len() > entries.iter().filter(|e| e.is_some()).count(),
                         entries,
                         name_ranks,
                     });
